@@ -49,7 +49,7 @@ class C12(Prop):
     rule = ("cases: (a) strings of 1..60 atoms drawn from 100 hostile atoms (delimiters, control characters, line-end mixes, "
             "container markers, tag / comment / footnote openers, NUL and a literal placeholder look-alike) x random option "
             "values incl. widths <= 0, 1, huge, all switches, plaintext; (b) G-doc documents with code blocks (trailing-space "
-            "rule); (c) 25 pumped families at n = 64..2048 (step counts via sys.monitoring). Non-trivial: input has >= 3 "
+            "rule); (c) 25 pumped families at n = 128..4096 (thorough ..16384), doubling stops once a point costs 4 s (step counts via sys.monitoring). Non-trivial: input has >= 3 "
             "distinct atoms / the family point ran to completion; distinct by hash of (input, options).")
     assumptions = ["time is judged on deterministic step counts (Python function starts inside flowmark and marko) and, as a "
                    "backstop, on a generous per-case CPU budget; regex backtracking inside the C regex engines is visible only "
@@ -82,7 +82,7 @@ class C12(Prop):
         for fi, f in enumerate(fams):
             if fi % nshards == shard:
                 for sem in (False, True):
-                    yield {"kind": "growth", "family": f, "semantic": sem, "sizes": [64, 128, 256, 512, 1024] + ([2048, 4096] if tier == "thorough" else [])}
+                    yield {"kind": "growth", "family": f, "semantic": sem, "sizes": [128, 256, 512, 1024, 2048, 4096] + ([8192, 16384] if tier == "thorough" else [])}
 
     def timeouts(self, case):
         if case.get("kind") in ("growth", "nest"):
@@ -246,6 +246,8 @@ class C12(Prop):
             if cpus[n] > 10.0 and len(text) <= 8192:
                 col.violation("growth", "C12/slow/cpu>10s", dict(case, sizes=[n]), {"cpu_s": round(cpus[n], 2), "len": len(text)})
                 break
+            if cpus[n] > 4.0:
+                break  # enough to judge the growth; do not double again
         if mon is not None:
             try:
                 mon.free_tool_id(tool)
@@ -260,10 +262,19 @@ class C12(Prop):
         if exps and max(exps[-2:]) > 2.3:
             col.violation("growth", "C12/growth/steps-superquadratic", case, {"steps": steps, "exponents": exps})
         # CPU-time growth (covers time spent inside the C regex engines, which steps cannot see)
-        big = [n for n in ns if cpus[n] > 0.25]
+        big = [n for n in ns if cpus[n] > 0.15]
         for a, b in zip(big, big[1:]):
             if b == 2 * a and cpus[b] / cpus[a] > 6.0:
                 col.violation("growth", "C12/growth/cpu-superquadratic", case, {"cpu": {k: round(v, 3) for k, v in cpus.items()}})
+                break
+            if b == 2 * a and cpus[b] / cpus[a] > 3.0 and cpus[b] > 0.8:
+                # time quadruples when the input doubles, at a size where it already costs about a second: not "gentle"
+                desc = "C12/growth/cpu-quadratic"
+                if case["family"] in ("open-comments", "open-tags", "open-vars"):
+                    # listed mechanism: every unclosed opener makes a lazy '.*?' pattern (flowmark's tag patterns and marko's
+                    # inline HTML pattern) scan to the end of the paragraph
+                    desc = "C12/growth/cpu-quadratic/unclosed-tag-or-comment-openers"
+                col.violation("growth", desc, case, {"cpu": {k: round(v, 3) for k, v in cpus.items()}})
                 break
         if col.evaluations % 3 == 0:
             col.sample({"family": case["family"], "semantic": case["semantic"], "steps": steps, "cpu_s": {k: round(v, 3) for k, v in cpus.items()}})
